@@ -29,7 +29,7 @@ sys.path.insert(0, str(Path(__file__).resolve().parent))
 import common as C
 
 PID = "C14"
-TARGETS = ["Dist/NumF.vo", "Props/C14.vo"]
+TARGETS = ["Dist/NumF.vo", "Dist/Frame.vo", "Dist/Support.vo", "Dist/Ctor.vo", "Dist/Refuted.vo", "Props/C14.vo"]
 IMPL = Path(__file__).resolve().parent / "c14_impl.py"
 
 EPS1 = 1.0 - 2.0 ** -53          # largest double below 1
@@ -1019,10 +1019,14 @@ def main(tier: str) -> int:
         run._known += [k for k in ek if k.get("property") == PID and k.get("signature") not in have]
     proofs_ok = run.check_proofs(TARGETS, extra_tb=[
         "libm (log, exp, pow, erf) and the ** operator are oracle tables recorded from CPython in the same run; "
-        "the model is exact only relative to them",
-        "theorems are over the real-number instance (Dist.DrawR) of the SAME Gallina text that is executed with PrimFloat "
-        "(Dist.NumF) in the correspondence; float rounding at the support boundary is only exercised, not proved",
-        "erf_inv is transcribed for floats and abstract in the real-number theorems; rejection loops: termination not proved",
+        "the PrimFloat model is exact only relative to them",
+        "purity / isolation / re-pointing theorems hold for every number structure (closed under the global context); "
+        "support, totality and constructor theorems are over the real-number instance (Dist.NumR: stdlib ln/exp/Rpower/sqrt, "
+        "the four standard real-number axioms) of the SAME Gallina text (Dist.Draw) that is executed with PrimFloat "
+        "(Dist.NumF) in the correspondence; float rounding, underflow and overflow are only exercised, not proved",
+        "the PrimFloat/PrimInt63 entries under 'axioms' are the kernel's primitive operations used by the executed "
+        "witnesses (NaN constructor table, subnormal-uniform witness), not logical axioms",
+        "erf / erf_inv / gamma are arbitrary functions in the real-number theorems; rejection loops: termination not proved",
         "int parameters restricted to |n| < 2^53 (exact int -> float conversion)",
     ])
     rng = random.Random(run.seed * 104729 + 14)
